@@ -759,7 +759,7 @@ pub fn run(rep: &mut Report) {
         None => std::env::remove_var("L4V_JOBS"),
     }
     run_cases(rep, "reentrant", 16, reentrant);
-    run_cases(rep, "reloader", if thorough { 4000 } else { 250 }, reloader_history);
+    run_cases(rep, "reloader", if thorough { 6000 } else { 1000 }, reloader_history);
     if thorough {
         std::env::set_var("L4V_JOBS", "4");
         run_cases(rep, "e2e", 8, e2e);
